@@ -106,6 +106,24 @@ CHECKS = {
              "match TLC's octets on every run, then decrypts every joserfc-produced JWE of the scenario space, and joserfc decrypts refimpl-produced JWEs for "
              "every alg x enc with zip, AAD, apu/apv, 1..3 recipients, three serializations and re-spelled protected headers; published vectors decrypt in both.",
         note="Trusted: primitives, TLC's evaluation of Wire.tla, the reading of the RFCs embodied in Wire.tla."),
+    "C09": dict(
+        cat="model_checking", ref="DESIGN.md section 6 (C09)",
+        technique="TLA+ Jwt spec (Encode/wire/Decode: typ default, untouched caller header, integrity before payload, object-only claims) model-checked by TLC; scenarios replayed on joserfc with generated claim sets and refimpl-forged non-object payloads",
+        text="Jwt.tla states six invariants (OnlyObjects, InvalidPayload, IntegrityFirst, Faithful, TypDefault, HeaderUntouched) over transport x typ x key|keyset x "
+             "11 payload classes x tampered x library/forged and refutes five deviations. Every scenario runs over 6 JWS and 5 JWE algorithm choices: object "
+             "payloads are generated claim sets (unicode, nesting, integers to 10^30, float extremes, aware/naive datetimes) compared as JSON after decode; "
+             "arrays, strings, numbers, true/false/null, non-JSON, empty and non-UTF-8 payloads are signed or encrypted by refimpl and must yield the "
+             "invalid-payload error; tampered tokens must fail the integrity check first.",
+        note="Trusted: TLC, refimpl, the claim generator. Claim sets are seeded samples."),
+    "C17": dict(
+        cat="model_checking", ref="DESIGN.md section 6 (C17)",
+        technique="TLA+ Deflate spec (streaming inflater with output limit and pending output) model-checked by TLC; final-state classes concretised as authenticated JWEs with real DEFLATE streams around the 256,000 limit, plus bombs under tracemalloc",
+        text="Deflate.tla models symbols expanding to 1..W octets and an inflater that may hold output pending when the limit is hit mid-symbol; TLC proves "
+             "NeverTooMuch/RoundTrips/Refuses/NoSilentCut for the intended decision rule over all streams up to a bound and refutes 'check only the unconsumed "
+             "tail', 'inflate fully then check', an off-by-one limit and a silent cut. Each final-state class is run at the real limit: lengths 0..cap+259, 2*cap "
+             "x constant/periodic/random data x raw/zlib framing x encs x serializations as refimpl-authenticated JWEs, and 64 MiB (512 MiB thorough) bombs "
+             "whose decryption must raise exceeded-size within a traced-memory bound.",
+        note="Trusted: TLC, zlib as primitive, tracemalloc as memory observer (Python allocations only)."),
 }
 
 NOT_YET = {}
